@@ -28,7 +28,7 @@ DECIDING = ["lines_checked", "benign_tokens_checked", "locality_lines_compared"]
 def cases(ctx):
     rng = ctx.rng
     subs = M.subsets()
-    for i in range(ctx.per_shard(ctx.pick(700, 60000))):
+    for i in range(ctx.per_shard(ctx.pick(2400, 80000))):
         yield {"kind": "text", "seed": rng.getrandbits(32), "feats": subs[i % 16] if rng.random() < 0.7 else rng.choice(subs),
                "nlines": rng.randint(1, 30), "final_newline": rng.random() < 0.8,
                "eols": rng.choice([["\n"], ["\n"], ["\r\n"], ["\n", "\r\n"]]),
